@@ -28,11 +28,14 @@ type SolverStats struct {
 var Stats SolverStats
 
 type proc struct {
-	name string
-	cmd  *exec.Cmd
-	in   io.WriteCloser
-	out  *bufio.Reader
-	log  io.Writer
+	name    string
+	cmd     *exec.Cmd
+	in      io.WriteCloser
+	out     *bufio.Reader
+	log     io.Writer
+	lines   chan string
+	timeout time.Duration
+	dead    bool
 }
 
 func startProc(name string, timeoutMs int) (*proc, error) {
@@ -59,7 +62,19 @@ func startProc(name string, timeoutMs int) (*proc, error) {
 	if err := c.Start(); err != nil {
 		return nil, err
 	}
-	p := &proc{name: name, cmd: c, in: in, out: bufio.NewReaderSize(out, 1<<16)}
+	p := &proc{name: name, cmd: c, in: in, out: bufio.NewReaderSize(out, 1<<16), lines: make(chan string, 64),
+		timeout: time.Duration(timeoutMs)*time.Millisecond + 5*time.Second}
+	go func() {
+		for {
+			l, err := p.out.ReadString('\n')
+			if err != nil {
+				p.lines <- "(error \"solver died: " + err.Error() + "\")"
+				close(p.lines)
+				return
+			}
+			p.lines <- l
+		}
+	}()
 	if lf := os.Getenv("VCHECK_SMTLOG"); lf != "" {
 		f, _ := os.OpenFile(fmt.Sprintf("%s.%s.%d", lf, name, c.Process.Pid), os.O_CREATE|os.O_WRONLY|os.O_TRUNC, 0644)
 		p.log = f
@@ -78,12 +93,28 @@ func (p *proc) send(s string) {
 	io.WriteString(p.in, s+"\n")
 }
 
-func (p *proc) readLine() string {
-	l, err := p.out.ReadString('\n')
-	if err != nil {
-		return "(error \"solver died: " + err.Error() + "\")"
+// rawLine returns the next output line; on a watchdog timeout the solver
+// process is killed and "timeout" is returned.
+func (p *proc) rawLine() string {
+	if p.dead {
+		return "timeout"
 	}
-	return strings.TrimSpace(l)
+	select {
+	case l, ok := <-p.lines:
+		if !ok {
+			p.dead = true
+			return "(error \"solver died\")"
+		}
+		return l
+	case <-time.After(p.timeout):
+		p.dead = true
+		p.cmd.Process.Kill()
+		return "timeout"
+	}
+}
+
+func (p *proc) readLine() string {
+	return strings.TrimSpace(p.rawLine())
 }
 
 // readSexp reads one balanced s-expression (possibly multi-line).
@@ -92,8 +123,8 @@ func (p *proc) readSexp() string {
 	depth := 0
 	started := false
 	for {
-		l, err := p.out.ReadString('\n')
-		if err != nil {
+		l := p.rawLine()
+		if p.dead {
 			return "(error \"solver died\")"
 		}
 		inStr := false
@@ -121,6 +152,9 @@ func (p *proc) readSexp() string {
 }
 
 func (p *proc) close() {
+	if p.dead {
+		return
+	}
 	p.send("(exit)")
 	p.in.Close()
 	done := make(chan struct{})
@@ -262,6 +296,11 @@ func (s *Session) check() Result {
 	}
 	atomic.AddInt64(&Stats.Queries, 1)
 	s.nqueries++
+	if s.cur.dead {
+		atomic.AddInt64(&Stats.Unknown, 1)
+		s.restart()
+		return Unknown
+	}
 	switch l {
 	case "sat":
 		atomic.AddInt64(&Stats.Sat, 1)
@@ -276,9 +315,33 @@ func (s *Session) check() Result {
 	atomic.AddInt64(&Stats.Errors, 1)
 	fmt.Fprintf(os.Stderr, "solver %s: unexpected answer %q\n", s.cur.name, l)
 	if strings.Contains(l, "solver died") {
-		panic(engineBug{"solver process died: " + l})
+		// a crashed back end is an inconclusive query, not a verdict
+		s.cur.dead = true
+		s.restart()
 	}
 	return Unknown
+}
+
+// restart replaces a killed solver process and replays the path-level
+// commands; the caller's inner (push 1) scope is re-opened empty, its
+// matching (pop 1) then closes it.
+func (s *Session) restart() {
+	name := s.cur.name
+	np, err := startProc(name, s.w.ex.opt.TimeoutMs)
+	if err != nil {
+		panic(engineBug{"cannot restart solver: " + err.Error()})
+	}
+	if s.cur == s.w.z3 {
+		s.w.z3 = np
+	} else {
+		s.w.cvc5 = np
+	}
+	s.cur = np
+	s.cur.send("(push 1)")
+	for _, c := range s.base {
+		s.cur.send(c)
+	}
+	s.cur.send("(push 1)")
 }
 
 // CheckWith asks whether pc ∧ extra... is satisfiable. If wantModel and sat,
